@@ -13,7 +13,8 @@ LEVEL = "exploration"
 ENGINE = "E3 stack"
 TECHNIQUE = ("deterministic simulation: the real Multicast controller over the real EZSP stack against the reference NCP's multicast table; every "
              "table write is answered {accept, reject, never -> real 10 s command timeout in virtual time}; complete enumeration of short operation "
-             "sequences with all answer assignments, seeded longer sequences, checked call by call against a reference table model")
+             "sequences with all answer assignments, seeded longer sequences, checked call by call against a reference table model"
+             ' The whole-stack soak (dst/soak.py: one ControllerApplication object through several connect/traffic/failure/reconnect epochs) is a further seeded scenario of this check.')
 LEVEL_TEXT = ("all operation sequences over {subscribe g, unsubscribe g} up to a length bound, for every small table size and initial table content, "
               "with every assignment of {accepted, rejected, no reply (10 s command timeout)} to the table writes are run (exhaustive small sweep); "
               "seeded sequences up to length 12 with start-up in between, table sizes up to 4 and a group universe of 5 beyond that")
@@ -49,11 +50,13 @@ def plan(tier):
             for init in inits:
                 for first in range(len(alpha)):
                     sweeps.append(("enum", {"V": V, "size": size, "init": init, "first": first, "L": L, "ng": ng, "sched": False}))
+    for V in (4, 8, 14):
+        sweeps.append(("overlap", {"V": V, "sched": False}))
     return {
         "sweeps": sweeps,
         "exhaustive": f"all sequences of length <= {L} over {{subscribe, unsubscribe}} x {ng} groups x answer {{accept, reject, no reply}} for table sizes 0..2 and initial tables {{empty, one entry, full}}",
-        "random": [("random", {}, 1)],
-        "runs": 1200 if tier == "quick" else None,
+        "random": [("random", {}, 4), ("soak", {}, 1), ("overlap_random", {}, 1)],
+        "runs": 1500 if tier == "quick" else None,
         "budget_s": 60 if tier == "quick" else 900,
         "batch": 20,
         "sweep_batch": 2,
@@ -70,6 +73,12 @@ class Coord:
 
 
 def run(scenario, params, tape, detail=False):
+    if scenario == "soak":
+        # the whole-stack soak (dst/soak.py): one application object through several connection epochs with traffic, failures and
+        # reconnects; this check reports the clauses of its own property from it
+        from .. import soak
+
+        return soak.run(params, tape, detail=detail)
     V = params["V"] if "V" in params else (4, 8, 13, 14)[tape.draw(4, "V")]
     rig = e3.StackRig(tape, version=V, sched=params.get("sched", True), fast_line=True, chunking=False, max_iters=3_000_000, max_vt=1e8)
     loop, ncp = rig.loop, rig.ncp
@@ -224,9 +233,68 @@ def run(scenario, params, tape, detail=False):
     def key_leak(vs):
         return any(v[1] == "leak-on-timeout" for v in vs)
 
+    async def overlap_sequence(ez, size, rounds, label):
+        """Operations on DIFFERENT groups whose table writes overlap (two callers, e.g. two group-membership changes at once): the
+        invariants are checked whenever no call is in progress. (Two overlapping subscribes of the SAME group are not generated: that
+        is a race of its own in Multicast.subscribe, outside what the property quantifies over - see DESIGN.md.)"""
+        ncp.multicast_size = size
+        ncp.config[0x06] = size
+        ncp.multicast = {}
+        answer["mode"], answer["applied"] = "ok", False
+        mc = bellows.multicast.Multicast(ez)
+        await mc._initialize()
+        nseq[0] += 1
+        for r, ops in enumerate(rounds):
+            probe("op.overlapping")
+            n_free = len(mc._available)
+            subscribed = {int(k) for k in mc._multicast}
+            res = await asyncio.gather(*[(mc.subscribe(GROUPS[g]) if op == "sub" else mc.unsubscribe(GROUPS[g])) for (op, g) in ops], return_exceptions=True)
+            where = f"{label} round {r} overlapping {ops}: "
+            oks = [not isinstance(x, BaseException) and t.sl_Status.from_ember_status(x) == t.sl_Status.OK for x in res]
+            new_subs = [g for (op, g) in ops if op == "sub" and GROUPS[g] not in subscribed]
+            freed = len([1 for (op, g) in ops if op == "unsub" and GROUPS[g] in subscribed])
+            want_ok_subs = min(len(new_subs), n_free)  # indices freed by an overlapping unsubscribe may or may not be available in time
+            got_ok_subs = len([1 for (op, g), ok in zip(ops, oks) if op == "sub" and GROUPS[g] not in subscribed and ok])
+            if not (want_ok_subs <= got_ok_subs <= min(len(new_subs), n_free + freed)):
+                viol.append(("C15.full", "overlap-count", where + f"{got_ok_subs} new subscriptions succeeded with {n_free} free indices (+{freed} being freed); results {res}"))
+            used = [v[1] for v in mc._multicast.values()]
+            free = set(mc._available)
+            if len(set(used)) != len(used):
+                viol.append(("C15.partition", "index-used-twice", where + f"indices in use {used}"))
+            if set(used) & free:
+                viol.append(("C15.partition", "free-and-used", where + f"indices {sorted(set(used) & free)} are both free and in use"))
+            if (set(used) | free) != set(range(size)):
+                viol.append(("C15.partition", "index-lost", where + f"indices {sorted(set(range(size)) - set(used) - free)} are neither free nor in use (table size {size})"))
+            host = {int(k) for k in mc._multicast.keys()}
+            ncp_groups = sorted(gid for (gid, ep) in ncp.multicast.values() if ep != 0)
+            if sorted(host) != ncp_groups:
+                viol.append(("C15.mirror", "diverged", where + f"host reports {sorted(hex(x) for x in host)}, NCP table has {[hex(x) for x in ncp_groups]}"))
+            for k, (entry, idx) in mc._multicast.items():
+                if ncp.multicast.get(idx, (0, 0)) != (int(k), 1):
+                    viol.append(("C15.mirror", "index-mismatch", where + f"host has group {int(k):#x} at index {idx}, NCP has {ncp.multicast.get(idx)} there"))
+        sigs.add(hashlib.blake2b(repr((V, "overlap", size, rounds)).encode(), digest_size=8).digest())
+
     async def main():
         ez = await rig.bringup()
-        if scenario == "enum":
+        if scenario == "overlap":
+            for size in (1, 2, 3):
+                for rounds in ([[("sub", 0), ("sub", 1)]],
+                               [[("sub", 0), ("sub", 1), ("sub", 2)]],
+                               [[("sub", 0), ("sub", 1)], [("unsub", 0), ("sub", 2)], [("sub", 3), ("unsub", 1)]],
+                               [[("sub", 0)], [("unsub", 0), ("sub", 1)], [("sub", 0), ("sub", 2), ("sub", 3)]]):
+                    await overlap_sequence(ez, size, rounds, f"v{V} size={size}")
+        elif scenario == "overlap_random":
+            size = 1 + tape.draw(4, "size")
+            rounds = []
+            for _ in range(1 + tape.draw(5, "rounds")):
+                gs = list(range(5))
+                ops = []
+                for _ in range(2 + tape.draw(2, "nops")):
+                    g = gs.pop(tape.draw(len(gs), "g"))
+                    ops.append((("sub", "sub", "unsub")[tape.draw(3, "op")], g))
+                rounds.append(ops)
+            await overlap_sequence(ez, size, rounds, f"v{V} size={size}")
+        elif scenario == "enum":
             size, init, L, ng = params["size"], params["init"], params["L"], params["ng"]
             alpha = [(op, g, a) for op in ("sub", "unsub") for g in range(ng) for a in ANS]
             first = alpha[params["first"]]
